@@ -21,10 +21,12 @@ def sh(*a, **k):
 def main():
     update = '--update' in sys.argv
     only = [a for a in sys.argv[1:] if not a.startswith('--')]
-    lock = open('/tmp/repo.lock', 'w')
-    fcntl.flock(lock, fcntl.LOCK_EX)
-    if sh('git', '-C', '/repo', 'status', '--porcelain', '--untracked-files=no').stdout.strip():
-        sys.exit('refusing: /repo has uncommitted changes')
+    REPO = os.environ.get('VERIF_REPO', '/repo')
+    if REPO == '/repo':
+        lock = open('/tmp/repo.lock', 'w')
+        fcntl.flock(lock, fcntl.LOCK_EX)
+    if sh('git', '-C', REPO, 'status', '--porcelain', '--untracked-files=no').stdout.strip():
+        sys.exit('refusing: %s has uncommitted changes' % REPO)
     man = json.load(open(os.path.join(HERE, 'MANIFEST.json')))
     props = [c['property_id'] for c in man['checks']]
     env = dict(os.environ, VERIF_NO_EVIDENCE='1')
@@ -37,7 +39,7 @@ def main():
         if only and not any(o in sid for o in only):
             continue
         meta = json.load(open(mp))
-        a = sh('git', '-C', '/repo', 'apply', '--whitespace=nowarn', os.path.join(d, 'patch.diff'))
+        a = sh('git', '-C', REPO, 'apply', '--whitespace=nowarn', os.path.join(d, 'patch.diff'))
         if a.returncode != 0:
             rows.append((sid, meta['property'], ['PATCH-DOES-NOT-APPLY'], []))
             continue
@@ -51,7 +53,7 @@ def main():
             with ThreadPoolExecutor(max_workers=6) as ex:
                 res = list(ex.map(run, props))
         finally:
-            sh('git', '-C', '/repo', 'checkout', '--', '.')
+            sh('git', '-C', REPO, 'checkout', '--', '.')
         det = [p for p, rc, rules in res if rc == 1]
         rules = sorted({x for p, rc, rl in res if rc == 1 for x in rl})
         broken = [p for p, rc, rules in res if rc == 2]
